@@ -13,15 +13,15 @@ from ..models import msmref as mr
 ID = 'C11'
 RULE = ('count matrices: all n=3 over {0,1,3} (19683), n=4 with every binary off-diagonal pattern x diagonal in {0,5}^4 '
         '(Q: every 4th pattern; T: all, diagonal {0,1,5}^4 on every 8th) x threshold {1,2,4} x renumber {T,F} x containers '
-        '{ndarray,csr,csc,coo,lil}; plus MSM(trim=True).fit on every assignment set of <=2 trajectories (len<=4, 3 states); '
+        '{ndarray,csr,csc,coo,lil, non-canonical coo with one unit entry per transition}; plus MSM(trim=True).fit on every assignment set of <=2 trajectories (len<=4, 3 states) and on 4-state two-island sets where every state has in- and out-transitions; '
         'state=(matrix,threshold,renumber,container); non-trivial = >=2 components where the heaviest is not the one '
         'containing state 0 or not the largest')
 ASSUMPTIONS = ['ties between equally heavy components: any maximiser accepted',
                'component weight = total outgoing count of its states in the ORIGINAL matrix (as the statement says)']
-GUARDS = {'heaviest_not_largest': 200, 'heaviest_not_first': 200, 'one_way_link': 1000, 'isolated_state': 1000,
+GUARDS = {'islands': 200, 'heaviest_not_largest': 200, 'heaviest_not_first': 200, 'one_way_link': 1000, 'isolated_state': 1000,
           'ties': 100, 'msm_fit': 500, 'sparse': 1000}
 NSH = {'quick': 64, 'thorough': 256}
-CONTAINERS = ('ndarray', 'csr', 'csc', 'coo', 'lil')
+CONTAINERS = ('ndarray', 'csr', 'csc', 'coo', 'lil', 'coo_dup')
 
 
 def matrices(tier):
@@ -46,6 +46,15 @@ def shards(tier, seed):
 
 
 def wrap(C, cont):
+    if cont == 'coo_dup':
+        # non-canonical COO: one stored unit entry per observed transition (what assigns_to_counts returns)
+        C = np.array(C)
+        rows, cols = [], []
+        for i in range(len(C)):
+            for j in range(len(C)):
+                rows += [i] * int(C[i, j])
+                cols += [j] * int(C[i, j])
+        return sp.coo_matrix((np.ones(len(rows), dtype=int), (rows, cols)), shape=C.shape)
     return np.array(C) if cont == 'ndarray' else getattr(sp, cont + '_matrix')(np.array(C))
 
 
@@ -158,6 +167,23 @@ def check_msm(case, ctx):
     check_trim(C, 1, True, 'coo', ctx, case, via_msm=(m.mapping_, m.tcounts_))
 
 
+def island_sets():
+    """assignment sets whose count graph has >= 2 strongly connected components although EVERY state has an incoming and
+    an outgoing transition (two islands {0,1} / {2,3}, optionally joined by a one-way crossing)"""
+    import itertools
+    def both(seq, a, b):
+        return a in seq and b in seq
+    A = [s for L in (3, 4) for s in itertools.product((0, 1), repeat=L) if both(s, 0, 1)]
+    B = [s for L in (3, 4) for s in itertools.product((2, 3), repeat=L) if both(s, 2, 3)]
+    out = []
+    for a in A:
+        for b in B:
+            out.append([a, b])
+            out.append([a + b])                 # one trajectory crossing once, one way
+            out.append([a, b, (1, 2)])
+    return out
+
+
 def run_shard(sh, ctx):
     kind, tier, i = sh
     if kind == 'mat':
@@ -167,7 +193,7 @@ def run_shard(sh, ctx):
             for thr in (1, 2, 4):
                 for renum in (True, False):
                     for cont in CONTAINERS:
-                        if tier == 'quick' and cont in ('csc', 'lil') and (j // NSH[tier]) % 3:
+                        if tier == 'quick' and cont in ('csc', 'lil', 'coo_dup') and (j // NSH[tier]) % 3:
                             continue
                         case = {'kind': 'mat', 'C': C.tolist(), 'thr': thr, 'renum': renum, 'container': cont}
                         check_case(case, ctx)
@@ -185,6 +211,11 @@ def run_shard(sh, ctx):
                 trajs = [a] if b is None else [a, b]
                 for lag in (1, 2):
                     check_msm({'kind': 'msm', 'trajs': trajs, 'lag': lag}, ctx)
+        isl = island_sets()
+        for j in range(i, len(isl), 8):
+            for lag in (1, 2):
+                ctx.guard('islands')
+                check_msm({'kind': 'msm', 'trajs': isl[j], 'lag': lag}, ctx)
         ctx.sample({'kind': 'msm', 'trajs': trajs, 'lag': lag})
 
 
